@@ -201,6 +201,7 @@ class Engine:
         self.unique_impls = unique_impls
         self.havoc_mut_args = havoc_mut_args
         self.assume_asserts = assume_asserts
+        self.havoc_inner = False        # with havoc_loops: also forget the loop-carried locals of loops in inlined callees
         self.cut_cond = None            # callable(state, term, op, val) -> True to end the path here with kind 'cut'
         self.fork_index = 8             # largest constant table whose lookup by an undetermined index forks the state
         self.inlined = set()
@@ -1030,12 +1031,13 @@ class Engine:
                 results.append(PathResult('backedge', st, None, (body.path, src, body.where(src))))
                 return False
             fr.visits[tgt] = n + 1
-        elif self.havoc_loops and len(st.frames) == 1 and body.loop_of(tgt) is not None and src not in body.loop_of(tgt):
+        elif self.havoc_loops and (len(st.frames) == 1 or self.havoc_inner) and body.loop_of(tgt) is not None and src not in body.loop_of(tgt):
             mod = body.loop_modified_locals(tgt)
+            inner = len(st.frames) > 1
             for key in list(st.store):
                 if key[0][0] == 'S':
                     del st.store[key]
-                elif key[0][0] == 'L' and key[0][1] == fr.fid and key[0][2] in mod and key[0][2] > body.argc:
+                elif key[0][0] == 'L' and key[0][1] == fr.fid and key[0][2] in mod and (key[0][2] > body.argc or inner):
                     if key[1]:
                         del st.store[key]
                     else:
